@@ -62,6 +62,11 @@ fn close(a: f64, b: f64) -> bool {
 
 /// compare a real factorisation with the model's expectation; returns a description of the first mismatch
 fn compare(f: &QDLDLFactorisation<f64>, exp: &Value, n: usize, pattern: Option<&Value>, check_solve: bool) -> Option<String> {
+    if exp["err"] == "ZeroPivot" && exp["dyadic"] == false {
+        // the exact pivot vanishes but the computation involves non-dyadic values: in floating point it may come out
+        // as a tiny nonzero number (the model's Dyadic flag); either outcome is a correct floating-point answer
+        return None;
+    }
     if exp["err"].as_str().unwrap() != "none" {
         return Some(format!("engine returned Ok, model expects {}", exp["err"]));
     }
